@@ -241,3 +241,52 @@ pub fn write_json(path: &Path, v: &Value) {
 pub fn ops_from_json(v: &Value) -> Vec<Op> {
     serde_json::from_value(v.clone()).expect("history")
 }
+
+/// The engine died (crash, sanitizer abort) or hung; the journal holds the case in flight.
+pub fn journal_verdict(prop: &str, tier: &str, path: &str, how: &str) -> i32 {
+    let Ok(txt) = std::fs::read_to_string(path) else {
+        println!("MACHINERY-ERROR property={prop}: the engine ended abnormally ({how}) and left no journal");
+        return 2;
+    };
+    let Ok(mut v) = serde_json::from_str::<Value>(&txt) else {
+        println!("MACHINERY-ERROR property={prop}: the engine ended abnormally ({how}); the journal is unreadable");
+        return 2;
+    };
+    // which property judges the call that was in flight?
+    let call = v["in_flight_call"].as_str().unwrap_or("").to_string();
+    let owner: Option<&str> = if call.starts_with("inspect") || call.starts_with("debug") {
+        Some("C20")
+    } else if call.starts_with("slice") {
+        Some("C13")
+    } else {
+        None
+    };
+    if let Some(o) = owner {
+        if o != prop {
+            println!("MACHINERY-ERROR property={prop}: the engine cannot run on this tree: {call} did not return ({how}); property {o} judges that call");
+            return 2;
+        }
+    }
+    let root = verif_root();
+    let rdir = root.join("replays").join(prop);
+    std::fs::create_dir_all(&rdir).ok();
+    let rp = rdir.join("crash-or-hang.json");
+    if let Value::Object(m) = &mut v {
+        m.insert("property".into(), json!(prop));
+        m.insert("kind".into(), json!("crash-or-hang"));
+        m.insert("how_the_engine_ended".into(), json!(how));
+    }
+    write_json(&rp, &v);
+    let what = v["history_text"].as_str().map(ToString::to_string).unwrap_or_else(|| v.to_string().chars().take(300).collect());
+    let ev = json!({
+        "property_id": prop, "tier": tier, "seed": seed(), "level": "other",
+        "coverage": {"explanation": format!("the exploration did not complete: the engine ended abnormally ({how}) while this case was in flight: {what}"), "evaluations": 1, "distinct_nontrivial": 2},
+        "assumptions": [], "wall_s": 0.0, "violations": 1,
+    });
+    let edir = root.join("evidence");
+    std::fs::create_dir_all(&edir).ok();
+    write_json(&edir.join(format!("{prop}.json")), &ev);
+    println!("VIOLATION property={prop} replay={}", rp.display());
+    println!("  the call {} did not return: the process {how} while this case was in flight: {what}", if call.is_empty() { "in flight".to_string() } else { call });
+    1
+}
